@@ -269,8 +269,15 @@ class P:
                 while s.rx(r'(nsw|nuw|exact)\b'): pass
                 s.expect('('); t1 = s.type(); a = s.value(t1); s.expect(','); t2 = s.type(); b = s.value(t2); s.expect(')')
                 return ('cbin', op, t1, a, b)
-        if s.eatw('trunc') or s.eatw('zext') or s.eatw('sext'):
-            raise IRError('constant cast expression')
+        for op in ('trunc', 'zext', 'sext'):
+            if s.eatw(op):
+                s.expect('('); ft = s.type(); v = s.value(ft); s.expect('to'); tt = s.type(); s.expect(')'); return ('ccast', op, ft, v, tt)
+        if s.eatw('icmp'):
+            pred = s.rx(r'\w+').group(0); s.expect('('); t1 = s.type(); a = s.value(t1); s.expect(','); s.type(); b = s.value(t1); s.expect(')')
+            return ('cicmp', pred, t1, a, b)
+        if s.eatw('select'):
+            s.expect('('); ct = s.type(); c = s.value(ct); s.expect(','); t1 = s.type(); a = s.value(t1); s.expect(','); s.type(); b = s.value(t1); s.expect(')')
+            return ('cselect', c, t1, a, b)
         if s.peek('{') or s.peek('<{') or s.peek('['):
             if not s.eat('<{'):
                 if not s.eat('{'): s.expect('[')
